@@ -494,10 +494,11 @@ def judge_c09(spec, PS, PT, ms, mt):
     for uid in ms:
         a, b = ms[uid], mt[uid]
         ba, bb = a["box"], b["box"]
-        if ba["raw_origin"] != bb["raw_origin"]:
+        # origins: both back-ends truncate to integers (the statement grants 1 unit); sizes are printed in full
+        if abs(ba["origin"][0] - bb["origin"][0]) > 1 or abs(ba["origin"][1] - bb["origin"][1]) > 1:
             probs.append({"rule": "box-origin", "uid": uid, "svg": ba["raw_origin"], "tikz": bb["raw_origin"]})
             break
-        if ba["raw_size"] != bb["raw_size"]:
+        if abs(ba["w"] - bb["w"]) > 1e-9 or abs(ba["h"] - bb["h"]) > 1e-9:
             probs.append({"rule": "box-size", "uid": uid, "svg": ba["raw_size"], "tikz": bb["raw_size"]})
             break
         for fld in ("fill", "border", "text_colour"):
@@ -521,7 +522,26 @@ def judge_c09(spec, PS, PT, ms, mt):
 
         ra = [tuple(la["start_raw"])] + with_from(la)
         rb = [tuple(lb["start_raw"])] + with_from(lb)
-        if ra != rb:
+
+        def flat(r):
+            out = []
+            for piece in r:
+                for x in piece:
+                    if isinstance(x, tuple):
+                        out.extend(x)
+                    else:
+                        out.append(x)
+            return out
+
+        fa, fb = flat(ra), flat(rb)
+        same = len(fa) == len(fb)
+        if same:
+            for x, y in zip(fa, fb):
+                if x in ("C", "L") or y in ("C", "L"):
+                    same = same and x == y
+                else:
+                    same = same and abs(float(x) - float(y)) <= 1e-7  # both print the points in full (8 decimals today)
+        if not same:
             probs.append({"rule": "link-curve", "uid": uid, "svg": ra[:3], "tikz": rb[:3]})
             break
     return probs
